@@ -31,6 +31,10 @@ def run_with(rec, limits):
     return got
 
 
+def main_src(rec):
+    return next(replay.conc(t) for n, t in rec["templates"] if replay.conc(n) == replay.conc(rec["main"]))
+
+
 def band(what, lower, upper, limit, got, expected_out, errcls, out, rec, bytes_of=None):
     cls_ok = (not got["ok"]) and errcls in got.get("mro", [])
     tag = f"{what}:limit={'lower-1' if limit == lower - 1 else 'lower' if limit == lower else 'upper' if limit == upper else 'upper+1' if limit == upper + 1 else 'mid'}"
@@ -96,6 +100,20 @@ def judge(rec, opts):
         # last state, not necessarily the heaviest)
         if "namespace" in rec.get("focus", "") and not (got["ok"] and got["out"] == eout):
             out.append((f"namespace:error-within-limit:{constructs(rec)}", {"limit": score, "values": repr(vals), "got": got}))
+    # context depth: the model's outcome under every small limit; at the first limit that suffices the render is
+    # the unlimited one, one below it fails with the depth error
+    depths = m.get("depths") or []
+    need = next((i + 1 for i, e in enumerate(depths) if e == ""), None)
+    # (block scopes start a scope stack of their own in the library, not in the model: chains are left out)
+    inherits = any(f"'{n}'" in main_src(rec) for n in ("xa", "xb", "xs", "xr", "xl", "xm", "lay", "lb"))
+    if need is not None and not inherits and all(e == "" for e in depths[need - 1:]):
+        got = run_with(rec, {"depth": need})
+        if not (got["ok"] and got["out"] == eout):
+            out.append((f"depth:error-within-limit:{constructs(rec)}", {"limit": need, "got": got}))
+        if need > 1 and depths[need - 2] == "ContextDepthError":
+            got = run_with(rec, {"depth": need - 1})
+            if got["ok"] or "ContextDepthError" not in got.get("mro", []):
+                out.append((f"depth:limit-exceeded-without-error:{constructs(rec)}", {"limit": need - 1, "got": got}))
     # a huge limit changes nothing; after a success the score is within the limit
     got = run_with(rec, {"ns": HUGE})
     if not (got["ok"] and got["out"] == eout):
